@@ -15,6 +15,9 @@ pub enum C17Case {
     Dest(String),
     /// several files with these destinations in ONE package
     Dests(Vec<String>),
+    /// the source file's modification time, seconds relative to 1970 (before 1970 / after 2106
+    /// cannot be represented in a package: an error, not a panic)
+    SrcMtime(i64),
     Caps(String),
     /// kind: 2 gzip, 3 zstd, 4 xz, 5 bzip2
     Level { kind: u8, level: i64 },
@@ -28,6 +31,7 @@ pub enum C17Case {
 }
 
 const DEST_TOKENS: [&str; 5] = ["/", ".", "..", "a", "b"];
+const SRC_MTIMES: [i64; 16] = [0, 1, -1, -2, -86_400, -2_147_483_648, -2_147_483_649, -30_000_000_000, 2_147_483_647, 2_147_483_648, 4_294_967_295, 4_294_967_296, 4_294_967_297, 8_589_934_592, 253_402_300_799, 1_000_000_000];
 
 /// i-th of the 39 paths of depth 1..3 over the components {a, b, m}
 fn small_path(mut i: u64) -> String {
@@ -111,7 +115,7 @@ impl Property for C17 {
         C17
     }
     fn rule(&self) -> String {
-        format!("complete enumeration of all destination strings of up to 6 (quick) / 7 (thorough) tokens over {:?}, random destinations with other characters; all ordered pairs of 39 small valid paths and random sets of 2-5 destinations in one package; capability strings: all token strings up to 3 tokens of the C19 alphabet; every compressor with levels {:?}; every metadata/file-option setter with arbitrary strings incl. interior NUL, empty and 64 KiB; numeric setters (raw file mode as i32, FileMode variants written out with unmasked permission fields, epoch, scriptlet flags, changelog time, source date, verify flags) with arbitrary integers. Each case runs in a worker process (encoders may abort). Non-trivial = the argument is outside the documented/valid domain (must-be-error destination, rejected caps, out-of-range level, string with NUL or > 4 KiB); distinct by case hash.", DEST_TOKENS, LEVELS)
+        format!("complete enumeration of all destination strings of up to 6 (quick) / 7 (thorough) tokens over {:?}, random destinations with other characters; source files modified before 1970, after 2106 and at the boundaries; all ordered pairs of 39 small valid paths and random sets of 2-5 destinations in one package; capability strings: all token strings up to 3 tokens of the C19 alphabet; every compressor with levels {:?}; every metadata/file-option setter with arbitrary strings incl. interior NUL, empty and 64 KiB; numeric setters (raw file mode as i32, FileMode variants written out with unmasked permission fields, epoch, scriptlet flags, changelog time, source date, verify flags) with arbitrary integers. Each case runs in a worker process (encoders may abort). Non-trivial = the argument is outside the documented/valid domain (must-be-error destination, rejected caps, out-of-range level, string with NUL or > 4 KiB); distinct by case hash.", DEST_TOKENS, LEVELS)
     }
     fn assumptions(&self) -> Vec<String> {
         vec![
@@ -145,6 +149,12 @@ impl Property for C17 {
                     let path = (prop_oneof![3 => Just("/"), 1 => Just("./")], proptest::collection::vec(comp, 1..5)).prop_map(|(p, c)| format!("{p}{}", c.join("/")));
                     proptest::collection::vec(path, 2..6).prop_map(C17Case::Dests).boxed()
                 }),
+            },
+            Phase::Enumerate {
+                name: "source-mtimes",
+                total: SRC_MTIMES.len() as u64,
+                exhaustive: true,
+                gen: Arc::new(|i| SRC_MTIMES.get(i as usize).map(|t| C17Case::SrcMtime(*t))),
             },
             Phase::Enumerate { name: "caps-strings", total: ncaps, exhaustive: true, gen: Arc::new(|i| super::c19::token_string(i, 3).map(C17Case::Caps)) },
             Phase::Enumerate {
@@ -233,6 +243,34 @@ fn inner(case: &C17Case, o: &mut Outcome) -> Result<(), (String, String)> {
                 // the same path given twice may replace the earlier file or be refused
                 o.label(build_and_readback_n(b, &format!("destinations {ds:?}"), 1, ds.len())?);
                 Ok(())
+            })
+        }
+        C17Case::SrcMtime(t) => {
+            o.label("source-mtime");
+            let representable = (0..=u32::MAX as i64).contains(t);
+            if !representable {
+                o.nontrivial_key(*t as u64);
+            }
+            with_one_file(|src| {
+                let when = if *t >= 0 { std::time::UNIX_EPOCH + std::time::Duration::from_secs(*t as u64) } else { std::time::UNIX_EPOCH - std::time::Duration::from_secs(t.unsigned_abs()) };
+                let set = std::fs::OpenOptions::new().write(true).open(src).and_then(|f| f.set_modified(when));
+                let seen = std::fs::metadata(src).and_then(|m| m.modified());
+                if set.is_err() || seen.ok() != Some(when) {
+                    // the file system cannot store this time
+                    o.label("source-mtime-not-settable");
+                    return Ok(());
+                }
+                match panics::catch(|| base().with_file(src, rpm::FileOptions::new("/f"))) {
+                    Err(pn) => Err(("panic".into(), format!("with_file(source modified at {t}s): {pn}"))),
+                    Ok(Err(_)) => {
+                        o.label("build-err-or-with-file-err");
+                        Ok(())
+                    }
+                    Ok(Ok(b)) => {
+                        o.label(build_and_readback(b, &format!("source modified at {t}s"), 1)?);
+                        Ok(())
+                    }
+                }
             })
         }
         C17Case::Caps(c) => {
